@@ -28,9 +28,17 @@ func init() {
 	// C05: iterators over data spread across memtable / L0 / deeper levels, all options
 	register("C05", func(c *Ctx) error {
 		return runSysProfile(c, func(i int) *profile {
-			return &profile{name: "iterators", wBegin: 4, wModify: 14, wGet: 2, wIter: 16, wCommit: 7, wDiscard: 1, wFlush: 5, wCompact: 4, wL0L0: 1,
+			p := &profile{name: "iterators", wBegin: 4, wModify: 14, wGet: 2, wIter: 16, wCommit: 7, wDiscard: 1, wFlush: 5, wCompact: 4, wL0L0: 1,
 				nOps: 50 + c.Rng.Intn(50), keys: keySetA[:4+c.Rng.Intn(8)], allVersions: true, reverse: true, prefix: true, since: true, expiry: true, discardBit: true,
 				nkeeps: []int{1, 3, 100}, detect: false}
+			if i%3 == 2 {
+				// table picking (IteratorOptions.pickTables: Prefix and SinceTs filters over levels
+				// with many small tables), then plain reads of the same levels
+				p.tableSize, p.valLen, p.prefixSince = 256, 12, true
+				p.wFlush, p.wCompact, p.wGet, p.nOps = 8, 10, 8, 90+c.Rng.Intn(60)
+				p.keys = keySetA[:8+c.Rng.Intn(4)]
+			}
+			return p
 		})
 	})
 	// C06: values around the value threshold (32): inline and value-log placements
